@@ -348,6 +348,17 @@ def run(tier: str, seed: int) -> int:
         for d in r["reports"]:
             kinds[d["kind"]] = kinds.get(d["kind"], 0) + 1
             new.append((r, d))
+    # --- expression API: building a new expression from a kept one (when / then continued from a partial case expression,
+    #     operators, methods, context arguments, use in a verb) leaves the kept object unchanged
+    from . import exprapi
+
+    api = exprapi.run_stream()
+    api_hist = {}
+    for a in api:
+        api_hist[a["outcome"]] = api_hist.get(a["outcome"], 0) + 1
+        if a["outcome"] in ("changed", "value_changed"):
+            new.append((None, dict(kind="expression_" + a["outcome"], stmt="", op=a["builder"], detail=a.get("detail"), receiver=a["receiver"],
+                                   how="python -m harness.exprapi")))
     groups = {}
     for r, d in new:
         groups.setdefault((d["kind"], d.get("op"), d.get("backend")), []).append((r, d))
@@ -370,9 +381,10 @@ def run(tier: str, seed: int) -> int:
         heap_correspondence_requests=n_heap, heap_stream_skipped=skipped, disagreements_checked=len(corr),
         programs=len(ok), statements_fingerprinted=stmts * 3, exports_and_query_builds=exports,
         reuse_programs=sum(1 for r in ok if r["profile"] == "reuse"), backends=["polars", "sqlite", "mssql (query build only)"],
-        report_kinds=kinds,
+        report_kinds=kinds, expression_api_cases=len(api), expression_api_outcomes=api_hist,
         rule="every statement, every export (twice, and once more at the end of the history) and every query build is bracketed by deep fingerprints "
-             "of all tables, expression objects and source frames alive at that point; reuse programs are also run with fresh objects per use",
+             "of all tables, expression objects and source frames alive at that point; reuse programs are also run with fresh objects per use; "
+             "expression API stream (harness/exprapi.py): every builder applied to every kind of kept expression object, fingerprint and value before / after",
         samples=[dict(seed=r["seed"], profile=r["profile"], stmts=r["program"]["stmts"][-6:]) for r in ok[:2]] or [dict(note="no program ran")],
     )
     v.assumptions = ["object identity, aliasing and in-place mutation are Python runtime facts: the Lean theorem is about the heap model of preprocess_arg; the "
